@@ -36,7 +36,10 @@ func (c *Conn) LocalAddr() net.Addr {
 		return c.Conn.LocalAddr()
 	}
 
-	if c.headerErr != nil || c.header.IsLocal {
+	// A header may be accepted without carrying addresses (v2 PROXY command with an
+	// unspecified or unknown address family, unassigned v2 commands): report the
+	// socket's own address instead of a nil net.Addr.
+	if c.headerErr != nil || c.header.IsLocal || c.header.Destination == nil {
 		return c.Conn.LocalAddr()
 	}
 
@@ -48,7 +51,7 @@ func (c *Conn) RemoteAddr() net.Addr {
 		return c.Conn.RemoteAddr()
 	}
 
-	if c.headerErr != nil || c.header.IsLocal {
+	if c.headerErr != nil || c.header.IsLocal || c.header.Source == nil {
 		return c.Conn.RemoteAddr()
 	}
 
